@@ -83,6 +83,21 @@ fn index_tuples(lens: &[usize], ring: &[usize]) -> Vec<Vec<usize>> {
 }
 
 fn gen_tensor_case(g: &mut Gen, shape: &[(&'static str, usize)], all_perms: bool, full_indexes: bool, ctor: &str) {
+    let max_perms = if all_perms { usize::MAX } else { 3 };
+    gen_tensor_case_sized(g, shape, max_perms, &[], full_indexes, 24, ctor);
+}
+
+/// `max_perms`: how many orderings (always including `must_include`); `tuples`: sampled index
+/// tuples per ordering when not `full_indexes`.
+fn gen_tensor_case_sized(
+    g: &mut Gen,
+    shape: &[(&'static str, usize)],
+    max_perms: usize,
+    must_include: &[Vec<usize>],
+    full_indexes: bool,
+    tuples: usize,
+    ctor: &str,
+) {
     let d = shape.len();
     let n: usize = shape.iter().map(|s| s.1).product();
     if ctor == "from_fn" {
@@ -105,9 +120,14 @@ fn gen_tensor_case(g: &mut Gen, shape: &[(&'static str, usize)], all_perms: bool
         }
     }
     let mut perms = permutations(d);
-    if !all_perms && perms.len() > 3 {
+    if perms.len() > max_perms {
         g.rng.shuffle(&mut perms);
-        perms.truncate(3);
+        perms.truncate(max_perms);
+        for m in must_include {
+            if !perms.contains(m) {
+                perms.push(m.clone());
+            }
+        }
     }
     for perm in perms {
         let names: Vec<&str> = perm.iter().map(|&p| shape[p].0).collect();
@@ -129,7 +149,7 @@ fn gen_tensor_case(g: &mut Gen, shape: &[(&'static str, usize)], all_perms: bool
             index_tuples(&lens, &[usize::MAX])
         } else {
             let mut t = vec![];
-            for _ in 0..24 {
+            for _ in 0..tuples {
                 t.push(
                     lens.iter()
                         .map(|&l| match g.rng.below(10) {
@@ -292,6 +312,46 @@ pub fn gen(g: &mut Gen) {
         let shape = named(g, &lens);
         let ctor = if g.rng.chance(1, 3) { "from_fn" } else { "from" };
         gen_tensor_case(g, &shape, false, false, ctor);
+    }
+    gen_large_cases(g);
+}
+
+/// Large cases (also in the quick tier): dimensionality 5 with all 120 orderings, dimensionality
+/// 6 with a few hundred of the 720 (always including orderings that mix a swap with a 3-cycle,
+/// 4-, 5- and 6-cycles), sides up to 12 in one dimension, larger 2-D and 3-D shapes with every
+/// ordering and every boundary index tuple.
+fn gen_large_cases(g: &mut Gen) {
+    // D = 5, every ordering
+    for lens in [vec![2, 1, 3, 2, 2], vec![2, 2, 2, 2, 2], vec![9, 1, 2, 1, 2], vec![1, 2, 1, 3, 11]] {
+        let shape = named(g, &lens);
+        let ctor = if g.rng.chance(1, 2) { "from_fn" } else { "from" };
+        gen_tensor_case_sized(g, &shape, usize::MAX, &[], false, 6, ctor);
+        g.count("large.D5.all_120_orderings");
+    }
+    // D = 6, a few hundred orderings, cycle types that only exist from D = 5 / 6 on
+    let mixed: Vec<Vec<usize>> = vec![
+        vec![1, 0, 3, 4, 2, 5], // swap + 3-cycle
+        vec![1, 0, 3, 4, 5, 2], // swap + 4-cycle
+        vec![1, 2, 0, 4, 5, 3], // two 3-cycles
+        vec![1, 2, 3, 4, 5, 0], // 6-cycle
+        vec![5, 0, 1, 2, 3, 4], // its inverse
+        vec![1, 0, 3, 2, 5, 4], // three swaps
+        vec![5, 4, 3, 2, 1, 0], // reversal
+        vec![0, 2, 3, 4, 1, 5], // 4-cycle, two fixed
+        vec![2, 3, 4, 0, 1, 5], // 5-cycle
+    ];
+    for (lens, k) in [(vec![2, 3, 1, 2, 2, 2], 240usize), (vec![2, 2, 2, 2, 2, 2], 120), (vec![1, 2, 10, 1, 2, 1], 120)] {
+        let shape = named(g, &lens);
+        let ctor = if g.rng.chance(1, 2) { "from_fn" } else { "from" };
+        gen_tensor_case_sized(g, &shape, k, &mixed, false, 5, ctor);
+        g.count("large.D6.sampled_orderings");
+    }
+    // long sides; every ordering and every boundary tuple
+    for lens in [vec![12], vec![12, 2], vec![3, 11], vec![9, 9], vec![2, 10, 3], vec![5, 5, 5], vec![12, 12]] {
+        let shape = named(g, &lens);
+        let full = lens.iter().map(|l| l + 2).product::<usize>() <= 400;
+        gen_tensor_case_sized(g, &shape, usize::MAX, &[], full, 40, "from");
+        g.count("large.long_sides");
     }
 }
 
